@@ -35,6 +35,8 @@ pub enum ModelId {
     /// external model of a panel that is hard-wired BGR and scanned bottom-to-top: its init
     /// writes (and returns) an address mode with those bits set whatever the options say
     SimHwBgr48x64,
+    Sim256x256,
+    Sim480x800,
 }
 
 pub const BUILTIN_MODELS: [ModelId; 14] = [
@@ -54,8 +56,10 @@ pub const BUILTIN_MODELS: [ModelId; 14] = [
     ModelId::RM67162,
 ];
 
-pub const SIM_MODELS: [ModelId; 12] = [
+pub const SIM_MODELS: [ModelId; 14] = [
     ModelId::SimHwBgr48x64,
+    ModelId::Sim256x256,
+    ModelId::Sim480x800,
     ModelId::Sim1x1,
     ModelId::Sim1x65535,
     ModelId::Sim65535x1,
@@ -92,6 +96,8 @@ impl ModelId {
             Sim64x48Rgb666 => (64, 48),
             Sim2048x2048 => (2048, 2048),
             SimHwBgr48x64 => (48, 64),
+            Sim256x256 => (256, 256),
+            Sim480x800 => (480, 800),
         }
     }
     pub fn rgb666(self) -> bool {
